@@ -16,6 +16,12 @@
 (*              a, k = "data" gives bytes at the running address, which    *)
 (*              starts at 0 and advances one per byte                      *)
 (*                                                                         *)
+(*  listing     rows [k, name, line, addr, data]: k = "file" names the     *)
+(*              source file of the rows that follow; k = "row" with a line *)
+(*              number shows one statement with its address and the first  *)
+(*              bytes; a row without line number continues the bytes of    *)
+(*              the statement above it (line = addr = -1)                  *)
+(*                                                                         *)
 (* Each machine folds the items into [mem, ok]: mem is a set of <<address, *)
 (* byte>> pairs, ok turns FALSE on any structural fault (bad checksum,     *)
 (* address given twice, record after end of file, no end of file ...).     *)
@@ -59,7 +65,26 @@ MinStep(st, l) ==
     ELSE [Place(st, st.cur, l.data) EXCEPT !.cur = st.cur + Len(l.data)]
 MinDecode(ls) == LET f == FoldLeft(MinStep, [mem |-> {}, ok |-> TRUE, cur |-> 0], ls) IN [mem |-> f.mem, ok |-> f.ok]
 
-Decode(fmt, items) == CASE fmt = "intel_hex" -> IhxDecode(items) [] fmt = "hex" -> DumpDecode(items) [] OTHER -> MinDecode(items)
+\* ---- listing: the statements shown, in order of appearance, each [file, line, addr, data]
+ListStep(st, r) ==
+    IF r.k = "file" THEN [st EXCEPT !.file = r.name]
+    ELSE IF r.line >= 0
+         THEN [st EXCEPT !.stmts = Append(@, [file |-> st.file, line |-> r.line, addr |-> r.addr, data |-> r.data]),
+                         !.ok = @ /\ r.addr >= 0 /\ st.file # ""]
+         ELSE IF st.stmts = <<>> \/ r.addr >= 0 THEN [st EXCEPT !.ok = FALSE]
+              ELSE [st EXCEPT !.stmts[Len(st.stmts)].data = @ \o r.data]
+ListStatements(rows) == FoldLeft(ListStep, [stmts |-> <<>>, file |-> "", ok |-> TRUE], rows)
+ListDecode(rows) ==
+    LET f == ListStatements(rows) IN
+    FoldLeft(LAMBDA st, x : Place(st, x.addr, x.data), [mem |-> {}, ok |-> f.ok], f.stmts)
+\* the listing shows exactly the statements S (each [file, line, addr, data]), every one once
+ShowsStatements(rows, S) ==
+    LET f == ListStatements(rows) IN
+    /\ f.ok /\ Len(f.stmts) = Len(S)
+    /\ {f.stmts[i] : i \in 1..Len(f.stmts)} = {S[i] : i \in 1..Len(S)}
+
+Decode(fmt, items) == CASE fmt = "intel_hex" -> IhxDecode(items) [] fmt = "hex" -> DumpDecode(items) [] fmt = "listing" -> ListDecode(items)
+                        [] OTHER -> MinDecode(items)
 Describes(fmt, items, M) == LET d == Decode(fmt, items) IN d.ok /\ d.mem = M
 
 ---------------------------------------------------------------------------
